@@ -222,6 +222,8 @@ ADAPTERS = {
     "dfix": lambda a: UserDelay(H(a[1])) if (len(a) > 2 and a[2] == "user") else DelayFixed(H(a[1])),
     "dpull": lambda a: DelayToPull(steps=a[1], additional_delay=H(a[2])),
     "dpush": lambda a: DelayToPush(),
+    "hold": lambda a: UserHold(),
+    "holdnd": lambda a: UserHoldNoDependency(),
 }
 class UserDelay(fm.Adapter, fm.ITimeDelayAdapter):
     """a fixed delay written by a user from the public interfaces only (no SDK delay base class):
@@ -245,6 +247,31 @@ class UserDelay(fm.Adapter, fm.ITimeDelayAdapter):
 
     def _get_data(self, time, target):
         return self.pull_data(self.with_delay(time), target)
+
+
+class UserHold(fm.Adapter):
+    """a push-based adapter written by a user from the public base class only (not a no-branch adapter):
+    fetches its source's data whenever it is notified and hands out the last data fetched"""
+
+    def __init__(self):
+        super().__init__()
+        self._last = None
+
+    @property
+    def needs_push(self):
+        return True
+
+    def _source_updated(self, time):
+        self._last = self.pull_data(time, self)
+
+    def _get_data(self, time, target):
+        if self._last is None:
+            raise fm.FinamNoDataError("nothing received yet")
+        return self._last
+
+
+class UserHoldNoDependency(UserHold, fm.interfaces.NoDependencyAdapter):
+    """the same, declared as breaking the scheduling dependency (its consumer takes whatever was published last)"""
 
 
 PUSH_BASED = ("lin", "next", "prev", "step", "avg", "sum")
